@@ -237,3 +237,39 @@ impl Zeroconf {
     #[verifier::external_body]
     pub fn handle_response(&mut self, msg: DnsIncoming, if_index: u32) { unimplemented!() }
 }
+// ---- handle_expired_probes ----
+#[verifier::external_body]
+#[verifier::reject_recursive_types(T)]
+pub struct Sender<T> { x: core::marker::PhantomData<T> }
+// what has been handed to the monitors so far (ghost log; the real notify_monitors also drops disconnected monitors)
+pub uninterp spec fn sent_log(m: Vec<Sender<DaemonEvent>>) -> Seq<DaemonEvent>;
+#[verifier::external_body]
+pub fn notify_monitors(monitors: &mut Vec<Sender<DaemonEvent>>, event: DaemonEvent)
+    ensures sent_log(*final(monitors)) == sent_log(*old(monitors)).push(event),
+{ unimplemented!() }
+// `opt_string.as_deref()`
+#[verifier::external_body]
+pub fn vx_opt_str(o: &Option<String>) -> (r: Option<&str>)
+    ensures r is Some <==> o is Some, r is Some ==> r->Some_0@ == o->Some_0@,
+{ unimplemented!() }
+// `vec.extend(other_vec)`
+#[verifier::external_body]
+pub fn vx_vec_extend<T>(v: &mut Vec<T>, other: Vec<T>)
+    ensures final(v)@ == old(v)@ + other@,
+{ unimplemented!() }
+// a NameChange event for record r of a finished probe
+pub open spec fn is_name_change(e: DaemonEvent, r: DnsRecordBox, intf: Seq<char>) -> bool {
+    e is NameChange && e->NameChange_0.original@ == r.rec().entry.name@ && r.rec().new_name is Some && e->NameChange_0.new_name@ == r.rec().new_name->Some_0@
+    && e->NameChange_0.rr_type == r.rec().entry.ty && e->NameChange_0.intf_name@ == intf
+}
+pub open spec fn first_at(names: Seq<String>, j: int) -> bool { forall|j2: int| 0 <= j2 < j ==> (#[trigger] names[j2]) != names[j] }
+pub open spec fn seen_before(names: Seq<String>, n: int, k: String) -> bool { exists|j: int| 0 <= j < n && (#[trigger] names[j]) == k }
+// the active records under name k after the probes named by the first n entries have finished
+pub open spec fn active_after(a0: Map<String, Vec<DnsRecordBox>>, p0: Map<String, Probe>, names: Seq<String>, n: int, k: String) -> Seq<DnsRecordBox> {
+    let before = if a0.contains_key(k) { a0[k]@ } else { Seq::<DnsRecordBox>::empty() };
+    if seen_before(names, n, k) && p0.contains_key(k) { before + p0[k].records@ } else { before }
+}
+pub open spec fn moved(p0: Map<String, Probe>, names: Seq<String>, n: int, k: String) -> bool { seen_before(names, n, k) && p0.contains_key(k) && p0[k].records@.len() > 0 }
+pub open spec fn event_for(log: Seq<DaemonEvent>, from: int, r: DnsRecordBox, intf: Seq<char>) -> bool {
+    exists|w: int| from <= w < log.len() && is_name_change(#[trigger] log[w], r, intf)
+}
